@@ -1250,7 +1250,7 @@ fn freeze_strategy(_t: Tier) -> BoxedStrategy<Scenario> {
     prop_oneof![
         2 => gen::traffic(
             gen::qcfg(BOTH, FutMode::Never, gen::cap_small(), gen::wait_no_notify()),
-            TrafficParams { max_values: 4, max_producers: 2, max_consumers: 2, w_try: 6, w_send: 2, w_clone_rx: 2, w_clone_tx: 2, w_convert: 2, w_try_iter: 3, leave: 2, fork: 3, ..TrafficParams::default() },
+            TrafficParams { max_values: 4, max_producers: 2, max_consumers: 2, w_try: 6, w_send: 2, w_clone_rx: 2, w_clone_tx: 2, w_convert: 2, w_try_iter: 4, try_only: true, leave: 2, fork: 3, ..TrafficParams::default() },
             300,
             probe_opts(),
         ),
